@@ -145,6 +145,13 @@ def _one_mono(arg):
     g = max(g, sum(1 for o in gts if o.semantic_label.label == LB))
     ntp, nfn, ap6, aph6, map6, subset = [], [], [], [], [], []
     prev = None
+    # the same result objects have been judged before, in the sibling matching mode, at every other rung's numeric value (a configuration
+    # lists centre- and plane-distance thresholds side by side): the ladder of `mode` is a function of (results, mode, thresholds) only
+    sibling = {"center": "plane", "plane": "center", "iou2d": "iou3d", "iou3d": "iou2d"}[mode]
+    if k % 4 != 3:
+        for thr in ladder[::2]:
+            get_positive_objects(results, [LB], MODES[sibling], [thr])
+            get_negative_objects(gts, results, [LB], MODES[sibling], [thr])
     for thr in ladder:
         tp, _ = get_positive_objects(results, [LB], MODES[mode], [thr])
         _, fn = get_negative_objects(gts, results, [LB], MODES[mode], [thr])
